@@ -32,6 +32,7 @@ def handle (line : String) : String :=
   | "pick" :: args => Driver.ApiP.pickHandle args
   | "layout" :: args => Driver.HtmlP.layoutHandle args
   | "oracle" :: args => Driver.HtmlP.oracleHandle args
+  | "tags" :: args => Driver.HtmlP.tagsHandle args
   | "tag" :: args => Driver.TagP.handle args
   | "tree" :: args => Driver.TreeP.handle args
   | "amp" :: args => Driver.PassP.handle "amp" args
